@@ -274,12 +274,12 @@ class MergedSequences(Generic[_ValueT]):
   def _index(self, index: int | _SliceT) -> _MergedSequenceIndex:
     index = len(self) + index if index < 0 else index
     indices = self._seq_idxs
-    idx_seq = bisect.bisect_left(indices, index)
-    if idx_seq == len(indices) and index > indices[-1]:
-      return _MergedSequenceIndex(idx_seq - 1)
-    if index == indices[idx_seq]:
-      return _MergedSequenceIndex(idx_seq, 0)
-    return _MergedSequenceIndex(idx_seq - 1, index - indices[idx_seq - 1])
+    # The last sequence that starts at or before `index`, which skips the empty
+    # sequences starting at the same offset.
+    idx_seq = bisect.bisect_right(indices, index) - 1
+    if idx_seq == len(self._sequences):
+      return _MergedSequenceIndex(idx_seq)
+    return _MergedSequenceIndex(idx_seq, index - indices[idx_seq])
 
   def slice(self, slice_: _SliceT) -> Iterator[_ValueT]:
     """Slices the merged sequences."""
